@@ -174,7 +174,7 @@ func (c *Client) StatBlobs(ctx context.Context, blobs []blob.Ref, fn func(blob.S
 		err = c.doStat(ctx, []blob.Ref{br}, 0, false, func(sb blob.SizedRef) error {
 			workerSB = sb
 			c.haveCache.NoteBlobExists(sb.Ref, sb.Size)
-			return fn(sb)
+			return nil
 		})
 		return
 	})
